@@ -407,6 +407,12 @@ class PeerConnection:
                 f"connection is closing, ignoring received message")
             return
 
+        if self.state == PEER_CONNECTING:
+            # nothing can be expected before our own CER has gone out
+            self.logger.warning(
+                f"connection is not established yet, ignoring received message")
+            return
+
         if self.state == PEER_CONNECTED:
             if msg.header.command_code != constants.CMD_CAPABILITIES_EXCHANGE:
                 self.logger.warning(
